@@ -352,11 +352,14 @@ def build(spec):
         acts = [dec(a) for a in enc_acts]
         ctx = dec(spec["context"][j])
         ik = spec["ikind"]
-        rw = build_reward(spec["rewards"][j], acts) if "rewards" in spec else None
+        # reward functions are keyed by equal but distinct action objects (what a reader / a user building rewards
+        # separately produces) in about half of the cases: an in-place change of the offered actions must not go unnoticed
+        racts = [dec(a) for a in enc_acts] if (spec.get("seed_", 0) + j) % 2 == 0 else acts
+        rw = build_reward(spec["rewards"][j], racts) if "rewards" in spec else None
         if ik in ("sim", "continuous"):
             it = SimulatedInteraction(ctx, acts, rw)
         elif ik == "grounded":
-            fb = build_reward(spec["feedbacks"][j], acts)
+            fb = build_reward(spec["feedbacks"][j], racts)
             it = GroundedInteraction(ctx, acts, rw, fb, **spec["extra"][j])
         else:
             lg = spec["logged"][j]
